@@ -161,7 +161,22 @@ func runScriptSetup(root, text string, setup [][2]string) (*recorder, *tsh.Resul
 		ContinueOnError: true,
 		Setup: func(env *testscript.Env) error {
 			for _, a := range setup {
-				env.Setenv(a[0], a[1])
+				switch {
+				case strings.HasPrefix(a[0], "-"):
+					// the variable is taken out of the list ("may modify Vars as it wishes")
+					var kept []string
+					for _, kv := range env.Vars {
+						if !strings.HasPrefix(kv, a[0][1:]+"=") {
+							kept = append(kept, kv)
+						}
+					}
+					env.Vars = kept
+				case strings.HasPrefix(a[0], "+"):
+					// appended to the list directly
+					env.Vars = append(env.Vars, a[0][1:]+"="+a[1])
+				default:
+					env.Setenv(a[0], a[1])
+				}
 			}
 			return nil
 		},
@@ -273,9 +288,14 @@ func checkBatch(root string, prelude []string, lines []string, kind string) []ki
 
 // ---------- env histories ----------
 
+// hostGORACE is the value GORACE has in this process while the histories run.
+const hostGORACE = "atexit_sleep_ms=7"
+
 type histCase struct {
 	Assign [][2]string `json:"assign"` // key, value
-	// Setup: assignments made before the script by Params.Setup (Env.Setenv)
+	// Setup: assignments made before the script by Params.Setup (Env.Setenv);
+	// a key "-K" takes K out of Env.Vars, a key "+K" appends K=value to
+	// Env.Vars directly
 	Setup [][2]string `json:"setup,omitempty"`
 	// Mode: "" = one env line per assignment; "oneline" = all assignments as
 	// arguments of one env command; "oneline-display" = the same with an
@@ -300,9 +320,25 @@ func parseEnvDump(s string) (map[string]string, string) {
 
 func checkHistory(root string, h histCase) []kit.V {
 	var sb strings.Builder
-	model := map[string]string{}
+	// GORACE is set in this process (main): testscript passes it through to the
+	// script's variables, where it is a variable like any other
+	model := map[string]string{"GORACE": hostGORACE}
+	removed := map[string]bool{}
 	for _, a := range h.Setup {
-		model[a[0]] = a[1]
+		switch {
+		case strings.HasPrefix(a[0], "-"):
+			delete(model, a[0][1:])
+			removed[a[0][1:]] = true
+		case strings.HasPrefix(a[0], "+"):
+			model[a[0][1:]] = a[1]
+			delete(removed, a[0][1:])
+		default:
+			model[a[0]] = a[1]
+			delete(removed, a[0])
+		}
+	}
+	for _, a := range h.Assign {
+		delete(removed, a[0])
 	}
 	if h.Mode != "" && len(h.Assign) > 0 {
 		sb.WriteString("env")
@@ -321,7 +357,7 @@ func checkHistory(root string, h histCase) []kit.V {
 		}
 	}
 	sb.WriteString("args 0 $X ${X} $Y ${Y} ${X@R} a$X-b\n")
-	sb.WriteString("getenv 1 X\ngetenv 2 Y\ngetenv 4 HOME\n")
+	sb.WriteString("getenv 1 X\ngetenv 2 Y\ngetenv 4 HOME\nargs 5 a${HOME}b\ngetenv 6 GORACE\nargs 7 a${GORACE}b\n")
 	sb.WriteString("exec henv\ncapstdout 3\n")
 	rec, res := runScriptSetup(root, sb.String(), h.Setup)
 	key := func(class string) string {
@@ -361,7 +397,21 @@ func checkHistory(root string, h histCase) []kit.V {
 	if hv, ok := model["HOME"]; ok && rec.getenv[4] != hv {
 		add("getenv", fmt.Sprintf("Getenv gives HOME=%q, latest assignment is %q", rec.getenv[4], hv))
 	}
+	if hv, ok := model["HOME"]; (ok || removed["HOME"]) && !eq(rec.args[5], []string{"a" + hv + "b"}) {
+		add("expansion", fmt.Sprintf("`a${HOME}b` gave %q, the latest value of HOME is %q (taken out of the list by Setup: %v)", rec.args[5], hv, removed["HOME"]))
+	}
+	if removed["HOME"] && rec.getenv[4] != "" {
+		add("getenv", fmt.Sprintf("Getenv gives HOME=%q although Setup took HOME out of the variable list", rec.getenv[4]))
+	}
+	if gv := model["GORACE"]; !removed["GORACE"] && (rec.getenv[6] != gv || !eq(rec.args[7], []string{"a" + gv + "b"})) {
+		add("passed-through-variable", fmt.Sprintf("GORACE (set to %q in the process running testscript) is %q for the script: Getenv gives %q, `a${GORACE}b` gives %q", hostGORACE, gv, rec.getenv[6], rec.args[7]))
+	}
 	child, _ := parseEnvDump(rec.stdouts[3])
+	for k := range removed {
+		if cv, ok := child[k]; ok {
+			add("child-env", fmt.Sprintf("executed program sees %s=%q although Setup took %s out of the variable list and nothing set it again", k, cv, k))
+		}
+	}
 	for k, v := range model {
 		if cv, ok := child[k]; !ok || cv != v {
 			add("child-env", fmt.Sprintf("executed program sees %s=%q (present=%v), script value is %q", k, cv, ok, v))
@@ -439,6 +489,7 @@ func main() {
 }
 
 func realMain() {
+	os.Setenv("GORACE", hostGORACE)
 	r := kit.Start("C02", "exploration")
 	root, err := os.MkdirTemp(os.Getenv("VERIF_SCRATCH"), "c02")
 	if err != nil {
@@ -645,6 +696,32 @@ func realMain() {
 			hists = append(hists, histCase{Assign: as, Setup: su})
 		}
 	}
+	// a variable passed through from the process running testscript
+	gAssigns := [][2]string{{"GORACE", "halt_on_error=1"}, {"GORACE", ""}, {"X", "v1"}}
+	for _, as := range seqs(gAssigns, 1, 3) {
+		hists = append(hists, histCase{Assign: as}, histCase{Assign: as, Setup: [][2]string{{"GORACE", "s1"}}}, histCase{Assign: as, Mode: "oneline"})
+	}
+	hists = append(hists, histCase{Setup: [][2]string{{"GORACE", "s1"}}}, histCase{Setup: [][2]string{{"-GORACE", ""}}}, histCase{Setup: [][2]string{{"-GORACE", ""}, {"X", "s1"}}, Assign: [][2]string{{"GORACE", "again"}}})
+	// a Setup that takes variables out of Env.Vars or appends to it directly
+	listOps := [][2]string{{"X", "s1"}, {"HOME", "s1"}, {"-X", ""}, {"-HOME", ""}, {"+X", "d1"}, {"+HOME", "d2"}, {"-Y", ""}}
+	maxOps := 2
+	if r.Thorough() {
+		maxOps = 3
+	}
+	for _, su := range seqs(listOps, 1, maxOps) {
+		plain := true
+		for _, a := range su {
+			if a[0][0] == '-' || a[0][0] == '+' {
+				plain = false
+			}
+		}
+		if plain {
+			continue
+		}
+		for _, as := range seqs(vAssigns, 0, 1) {
+			hists = append(hists, histCase{Assign: as, Setup: su})
+		}
+	}
 	// several assignments as arguments of one env command, with and without
 	// arguments that only display a variable in between
 	for _, as := range seqs(vAssigns, 1, 3) {
@@ -707,7 +784,7 @@ func realMain() {
 
 	r.Set("evaluations", evals)
 	r.Set("distinct_nontrivial", nontrivial)
-	r.Set("rule", fmt.Sprintf("quoting law: every word of <= %d bytes over {a,SP,TAB,',$,#,CR,{,},@,\\,=,à,0xA0} quoted (3 placements) and every pair of words of <= 2 bytes (separate and adjacent); splitting: every line of <= %d tokens over {a,b,SP,TAB,','',#,$X,${X},${X@R},$$,${/},${:},CR,à,NEL,VT,FF}; names containing '@' (X@Y, X@, X@Rx, X@R@Y, @X, X@r) through ${NAME} and ${NAME@R}; long lines: a word of 4095..4097, 65500..65537, 70000, 131072 or 1048576 bytes (plain, quoted, after a variable, in a comment) between two ordinary lines; env histories: every sequence of <= %d assignments over {X,Y} x 10 values, and every sequence of 1-2 assignments made by Params.Setup over {X,Y,HOME} x 2 values followed by 0-2 script assignments, and 1-3 assignments given as arguments of one env command (also with display-only arguments in between), observed through expansion, Getenv and a child process; @R: every value of <= 3 bytes over 10 regexp metacharacters against every string of <= %d. non-trivial = non-empty words / lines with a quote, $, # or blank / all histories and values, counted", n1, n2, maxH, nstr))
+	r.Set("rule", fmt.Sprintf("quoting law: every word of <= %d bytes over {a,SP,TAB,',$,#,CR,{,},@,\\,=,à,0xA0} quoted (3 placements) and every pair of words of <= 2 bytes (separate and adjacent); splitting: every line of <= %d tokens over {a,b,SP,TAB,','',#,$X,${X},${X@R},$$,${/},${:},CR,à,NEL,VT,FF}; names containing '@' (X@Y, X@, X@Rx, X@R@Y, @X, X@r) through ${NAME} and ${NAME@R}; long lines: a word of 4095..4097, 65500..65537, 70000, 131072 or 1048576 bytes (plain, quoted, after a variable, in a comment) between two ordinary lines; env histories: every sequence of <= %d assignments over {X,Y} x 10 values, and every sequence of 1-2 assignments made by Params.Setup over {X,Y,HOME} x 2 values followed by 0-2 script assignments, every sequence of 1-2 (thorough 3) Setup steps over {Setenv, take a variable out of Env.Vars, append to Env.Vars directly} x {X, Y, HOME} followed by 0-1 script assignments, and 1-3 assignments given as arguments of one env command (also with display-only arguments in between), and histories over GORACE, set in the process that runs testscript and passed through to the script, observed through expansion, Getenv and a child process; @R: every value of <= 3 bytes over 10 regexp metacharacters against every string of <= %d. non-trivial = non-empty words / lines with a quote, $, # or blank / all histories and values, counted", n1, n2, maxH, nstr))
 	r.Set("env_histories", len(hists))
 	r.Set("r_law_values", len(rvals))
 	r.Set("exhaustive", !r.Capped())
